@@ -151,6 +151,15 @@ def inverse [Add K] [Mul K] [Sub K] [Neg K] [Div K] (m : M32 K) : M32 K :=
   let det := m.a * m.d - m.b * m.c
   ⟨m.d / det, -m.b / det, -m.c / det, m.a / det, (m.c * m.f - m.d * m.e) / det, (m.b * m.e - m.a * m.f) / det⟩
 
+/-- `matrix3x2::operator*=`: `(*this) = (*this) * m` -- the product is built as a temporary from the OLD members and then
+    assigned member by member (also when `m` aliases `*this`) -/
+def mulAssign [Add K] [Mul K] (self m : M32 K) : M32 K :=
+  let t := mul self m
+  ⟨t.a, t.b, t.c, t.d, t.e, t.f⟩
+
+/-- `m = matrix3x2(); m *= M1; …; m *= Mn` -/
+def chain [Add K] [Mul K] (start : M32 K) (ms : List (M32 K)) : M32 K := ms.foldl mulAssign start
+
 def one [OfNat K 0] [OfNat K 1] : M32 K := ⟨1, 0, 0, 1, 0, 0⟩
 def translate [OfNat K 0] [OfNat K 1] (x y : K) : M32 K := ⟨1, 0, 0, 1, x, y⟩
 def scale [OfNat K 0] (x y : K) : M32 K := ⟨x, 0, 0, y, 0, 0⟩
@@ -170,6 +179,30 @@ def subimage [OfNat K 0] [OfNat K 1] [OfNat K 2] [Add K] [Mul K] [Sub K] [Neg K]
 /-- `resize_view(src w×h, dst dw×dh)`: cos(-0.0) = 1, sin(-0.0) = -0.0 -/
 def resize [OfNat K 0] [OfNat K 1] [OfNat K 2] [Add K] [Mul K] [Sub K] [Neg K] [Div K] [Max K]
     (w h dw dh : K) (sinNegZero : K) : M32 K := subimage 0 0 w h dw dh 1 sinNegZero
+
+/-- `center_rotate(point<T> dims, F rads)` with F = double (the two `while` loops with fuel; `dims` converted to double
+    where the code's usual arithmetic conversions do) -/
+def centerRotate (w h : Float) (rads0 : Float) : M32 Float :=
+  let PI : Float := 3.141592653589793238
+  let cT := Float.abs (Float.cos rads0)
+  let sT := Float.abs (Float.sin rads0)
+  let rec up (fuel : Nat) (r : Float) : Float :=
+    match fuel with
+    | 0 => r
+    | n + 1 => if r + PI < 0 then up n (r + PI) else r
+  let rec down (fuel : Nat) (r : Float) : Float :=
+    match fuel with
+    | 0 => r
+    | n + 1 => if r > PI then down n (r - PI) else r
+  let rads := down 100000 (up 100000 rads0)
+  let rot : M32 Float := rotate (Float.cos rads) (Float.sin rads)
+  let t0 : M32 Float := ⟨0, 0, 0, 0, 0, 0⟩
+  let t1 : M32 Float := if rads > 0 then { t0 with b := sT } else { t0 with c := sT }
+  let t2 : M32 Float := if Float.abs rads > PI / 2 then { t1 with a := cT, d := cT } else t1
+  let p := apply t2 (-w, -h)
+  let tr : M32 Float := translate p.1 p.2
+  let sc : M32 Float := scale (sT * h / w + cT) (sT * w / h + cT)
+  mul (mul sc tr) rot
 
 end M32
 
